@@ -256,6 +256,9 @@ func checkPrograms(t *testing.T, check string, hookedWeight, minSteps, maxSteps 
 		if res.Kind != "" {
 			pl := prog.sample().(map[string]any)
 			pl["kind"], pl["observed"], pl["trace"] = res.Kind, res.Violation, res.Trace
+			if res.Goroutines != "" {
+				pl["goroutines_at_hang"] = res.Goroutines
+			}
 			stats.Violation(check, pl)
 			rt.Fatalf("%s: %s\nprogram: pools %+v groups %v attributed=%v\nsteps:\n  %s\ntrace:\n  %s", res.Kind, res.Violation, prog.Pools, prog.Groups, prog.Attributed, joinLines(prog.stepStrings()), joinLines(res.Trace))
 		}
